@@ -38,6 +38,9 @@ func checkC08(p *Prog, l *Ledger) {
 	checkParserPrimitives(p, l, "C08/S0-cursor-primitives")
 	checkProgress(p, l, pi)
 	checkGrammarEquivalence(p, l, pi, "C08/S3-grammar")
+	// the terminals of that grammar: which runes may stand in a name is decided for every code point (C09's rule) — a
+	// symbol taken for a letter turns a text that must be rejected into an accepted one
+	checkWordCharacters(p, l, "C08/S3-grammar/word-characters")
 	checkLookaheadRestrictions(p, l, pi)
 	checkSemanticFilters(p, l, pi)
 	checkParserMemory(p, l, "C08/S3-filters/parser-memory")
